@@ -463,6 +463,24 @@ def run(facts, R):
                         R.check(not w, "one-lock-per-frame", b.path, "non-writer does not write", "%s writes to the connection" % b.path, t.get("span"))
     R.floor("one-lock-per-frame", n_lockers, 6 if has_ws else 5, "writer-lock sites in the clients")
 
+    # ---- frames-are-well-formed: what goes out under one critical section is a frame only if the lengths its header declares
+    # are the lengths of the query and body bytes written after it, in that order; otherwise the peer mis-frames this message
+    # and everything behind it although no write was torn.  C01's emission and length rules decide that (shared)
+    if R.prop == "C05":
+        from analysis import report as _report1
+        from rules import C01 as _c01
+        sub1 = _report1.Report(R.prop, R.tier, R.config)
+        try:
+            _c01.emission(facts, sub1)
+            _c01.length_formula(facts, sub1)
+        except Exception as e:
+            sub1.bad("anchor-resolution", "<crate>", "shared-C01-rules", "the shared frame-shape rules could not run: %s" % e)
+        for inst in sub1.instances:
+            if inst["rule"] in ("emission-normal-form", "length-formula") and inst["verdict"] == "holds":
+                R.instances.append(inst)
+        for v in sub1.violations:
+            R.bad("frames-are-well-formed", v["fn"], v["what"], v["msg"], v.get("site"), v.get("path"))
+
     # ---- one writer per server connection: the BufWriter local is never moved / shared
     for path, role, is_async in CONN:
         if role != "server":
